@@ -307,6 +307,10 @@ pub enum BrokerAct {
     /// a sluggish executor: from now on a task woken by arriving data is polled this much later
     /// (virtual microseconds); the application is still "waiting in poll()" all that time
     WakeDelay(u64),
+    /// timers never fire early, but they do fire a little late: from now on the task is polled
+    /// this many virtual microseconds after a timer of the client fell due (kept far below the
+    /// smallest slack the client plans with, half a second)
+    TimerLatency(u64),
 }
 
 #[derive(Clone, Debug, Serialize, Deserialize, PartialEq)]
